@@ -1,0 +1,62 @@
+// Licensed under the MIT license which can be found in the LICENSE file.
+
+package knx
+
+import (
+	"sync"
+
+	"github.com/vapourismo/knx-go/knx/cemi"
+)
+
+// inboundQueue hands messages to a channel in the order in which they were pushed, without making
+// the pusher wait for the receiver.
+type inboundQueue struct {
+	mu       sync.Mutex
+	pending  []cemi.Message
+	draining bool
+}
+
+// push sends msg through out. If nobody is receiving right now, or earlier messages are still
+// waiting, the message is queued behind them and delivered by a single goroutine.
+func (q *inboundQueue) push(out chan<- cemi.Message, msg cemi.Message) {
+	q.mu.Lock()
+	defer q.mu.Unlock()
+
+	if !q.draining {
+		select {
+		case out <- msg:
+			return
+
+		default:
+		}
+
+		q.draining = true
+		go q.drain(out)
+	}
+
+	q.pending = append(q.pending, msg)
+}
+
+// drain delivers the queued messages one after the other.
+func (q *inboundQueue) drain(out chan<- cemi.Message) {
+	// Since this goroutine decouples from the server goroutine, it might try to send when the
+	// server closed the inbound channel. Sending to a closed channel will panic. But we don't
+	// care, because cool guys don't look at explosions.
+	defer func() { recover() }()
+
+	for {
+		q.mu.Lock()
+
+		if len(q.pending) == 0 {
+			q.draining = false
+			q.mu.Unlock()
+			return
+		}
+
+		msg := q.pending[0]
+		q.pending = q.pending[1:]
+		q.mu.Unlock()
+
+		out <- msg
+	}
+}
